@@ -19,3 +19,4 @@ CFG = {
 CFG['level_text'] += ' The private-module pattern list is one of six equivalent lists (malformed and empty elements, character classes, a trailing slash), each confirmed by the harness\'s own reading of the documented matching; module versions include ones ending in letters of "/go.mod".'
 CFG['level_text'] += ' In half of the runs store and transport hand the very same bytes to every client asking for the same thing; afterwards no handed-out buffer may have changed.'
 CFG['level_text'] += ' Module versions and paths include upper-case letters (also Z); tile height 30 is among the heights drawn.'
+CFG['level_text'] += ' Three of the nine private-pattern lists contain no glob character at all, two of them with trailing slashes on the patterns.'
